@@ -132,7 +132,8 @@ def writer_events(w):
     if w.get("hung"):
         ev.append({"ev": "wend", "case": w["case"], "seg": 1, "status": "hung", "same": False, "blocks": [], "contentLen": 0,
                    "consumed": 0, "segLen": 0, "flg": 0, "bd": 0, "csize": [], "clean": False, "sinkIsPrefix": True,
-                   "injected": False, "closecalled": False, "single": False, "handler": False, "hcalls": 0, "hsum": 0, "storedsum": 0})
+                   "injected": False, "closecalled": False, "single": False, "handler": False, "hcalls": 0, "hsum": 0, "storedsum": 0,
+                   "expflg": 0, "expbd": 0, "expcsize": [], "reconf": False})
         return ev
     prev_calls, prev_sink = 0, 0
     for i, c in enumerate(w["calls"]):
@@ -148,6 +149,8 @@ def writer_events(w):
                    "segLen": f["segLen"], "flg": f["flg"], "bd": f["bd"], "csize": f["csize"], "clean": w["panicked"] == "",
                    "sinkIsPrefix": w.get("sinkIsPrefix", True), "injected": w.get("injected", False),
                    "closecalled": any(c["op"] == "close" for c in w["calls"]),
+                   "expflg": (w.get("expdesc") or [[flg, bd, csize]] * (k + 1))[k][0], "expbd": (w.get("expdesc") or [[flg, bd, csize]] * (k + 1))[k][1],
+                   "expcsize": (w.get("expdesc") or [[flg, bd, csize]] * (k + 1))[k][2], "reconf": bool(w.get("expdesc")),
                    "single": len(w["frames"]) == 1, "handler": bool(o.get("handler")), "hcalls": len(w.get("handler") or []),
                    "hsum": sum(w.get("handler") or []), "storedsum": sum(b["size"] for b in f["blocks"])})
     return ev
